@@ -205,13 +205,13 @@ theorem sendlineR_rb_ok {ash : Bool} {ext : Bytes × Nat} {line out : Bytes} {r'
 
 /-- `sendline(line)` (no read-back) in sync: the line is written; echo, cooked output and prompt
     are pending -/
-theorem sendlineR_plain_ok {ash : Bool} {ext : Bytes × Nat} {line out : Bytes} {r' : Remote} (w : World)
+theorem sendlineR_plain_ok {ash : Bool} {P : Bytes} {ext : Bytes × Nat} {line out : Bytes} {r' : Remote} (w : World)
     (hq : Quiet w.ch) (hbl : w.ch.blacklist = blacklist ash)
     (hfb : forbidden (blacklist ash) (line ++ [CR]) = false)
-    (ha : Answers (prompt ash) w.rem ext line out r') :
+    (ha : Answers P w.rem ext line out r') :
     ∃ w1, sendlineR line false ext w = (.ok (), w1) ∧ w1.rem = r' ∧ w1.oracle = w.oracle
       ∧ Quiet w1.ch ∧ Same w.ch w1.ch
-      ∧ flat w1.ch.script = flat w.ch.script ++ (Tty.echo false (line ++ [CR]) ++ Tty.cook out ++ prompt ash)
+      ∧ flat w1.ch.script = flat w.ch.script ++ (Tty.echo false (line ++ [CR]) ++ Tty.cook out ++ P)
       ∧ ((∀ q ∈ w.ch.script, q.tick = 0) → ∀ q ∈ w1.ch.script, q.tick = 0) := by
   have hfb' : forbidden w.ch.blacklist (line ++ [CR]) = false := by rw [hbl]; exact hfb
   obtain ⟨hrem, hflat, hwf, hsame, htick, hor⟩ := feed_spec w hfb' ha
